@@ -118,6 +118,15 @@ def gen_plan(run_seed: int, k: int, tier: str) -> dict:
         objects[pid] = {"kind": "parser", "g": g, "opt": o, "owner": owner}
         return {"op": "new", "id": pid, "g": g, "opt": o, "debug": rng.random() < 0.15}
 
+    def newfrom_op(owner, src):
+        # Parser(other.rules, ...): a second parser over the SAME Rule objects (the documented
+        # constructor), with its own optimizer setting
+        counter[0] += 1
+        pid = f"p{counter[0]}"
+        o = rng.choices(oids, [1 if x == "o_none" else 4 if x == "o_shared" else 2 for x in oids])[0]
+        objects[pid] = {"kind": "parser", "g": objects[src]["g"], "opt": o, "owner": owner}
+        return {"op": "newfrom", "id": pid, "src": src, "opt": o, "debug": rng.random() < 0.1}
+
     def gen_op(owner, pid):
         counter[0] += 1
         mid = f"m{counter[0]}"
@@ -217,6 +226,15 @@ def gen_plan(run_seed: int, k: int, tier: str) -> dict:
                 if ps:
                     ops.append(gen_op(c, rng.choice(ps)))
                     mine.append(ops[-1]["id"])
+            elif r < 0.17 and len(objects) < 14 and [x for x in avail if objects[x]["kind"] == "parser" and objects[x]["opt"] == "o_none"]:
+                src = rng.choice([x for x in avail if objects[x]["kind"] == "parser" and objects[x]["opt"] == "o_none"])
+                first = parse_op(src)
+                first.pop("defer", None)
+                ops.append(first)
+                ops.append(newfrom_op(c, src))
+                mine.append(ops[-1]["id"])
+                ops.append(dict(first))
+                ops.append(parse_op(mine[-1]))
             elif r < 0.30 and len(objects) < 14:
                 # the detector shape: parse A, create an (optimized) B, parse A again
                 t = rng.choice(avail)
@@ -611,6 +629,20 @@ def execute_plan(plan) -> dict:
             objs[op["id"]] = {"kind": "parser", "obj": p, "g": op["g"], "passes": spec.get("passes")}
             rec["build"] = ["ok"]
             rec["bkey"] = [op["g"], spec.get("passes"), "interpreter"]
+        elif kind == "newfrom":
+            src_obj = objs.get(op["src"])
+            spec = optim_specs[op["opt"]]
+            if src_obj is None or src_obj["kind"] != "parser" or src_obj["passes"] is not None:
+                rec["status"] = "skipped"
+                return rec
+            rec["bkey"] = [src_obj["g"], spec.get("passes"), "interpreter"]
+            try:
+                p = SimParser(src_obj["obj"].rules, src_obj["obj"].doc, optimizer=get_opt(op["opt"]), debug=bool(op.get("debug")))
+            except Exception as e:  # noqa: BLE001
+                rec["build"] = ["exc", type(e).__name__]
+                return rec
+            objs[op["id"]] = {"kind": "parser", "obj": p, "g": src_obj["g"], "passes": spec.get("passes")}
+            rec["build"] = ["ok"]
         elif kind == "gen":
             src_obj = objs.get(op["p"])
             if src_obj is None or src_obj["kind"] != "parser":
@@ -1011,7 +1043,7 @@ def plan_stats(plan, run, viols, checked):
     for c, oid in order:
         op = opmap[oid]
         r = res_by_oid.get(oid, {})
-        if op["op"] == "new" and r.get("status") == "done":
+        if op["op"] in ("new", "newfrom") and r.get("status") == "done":
             made += 1
             if plan["optimizers"][op["opt"]]["passes"]:
                 for t in seen_parse_on:
@@ -1349,7 +1381,7 @@ class Check:
                     yield {**plan, "optimizers": {**plan["optimizers"], oid: {**spec, "passes": ps[:i] + ps[i + 1 :]}}}
         # 6. unused grammars
         used = {op.get("g") for ops in [setup] + clients for op in ops if op["op"] == "new"}
-        if len(used) < len(plan["grammars"]):
+        if len(used) < len(plan["grammars"]) and used:
             yield {**plan, "grammars": {g: t for g, t in plan["grammars"].items() if g in used}}
 
     def describe(self, plan):
@@ -1362,6 +1394,10 @@ class Check:
                 spec = plan["optimizers"][op["opt"]]
                 o = "optimizer=None" if spec["passes"] is None else ("DEFAULT_OPTIMIZER" if spec.get("shared_default") else f"Optimizer({spec['passes']})")
                 return f"{op['id']}=new({op['g']}, {o}{', debug' if op.get('debug') else ''})"
+            if k == "newfrom":
+                spec = plan["optimizers"][op["opt"]]
+                o = "optimizer=None" if spec["passes"] is None else ("DEFAULT_OPTIMIZER" if spec.get("shared_default") else f"Optimizer({spec['passes']})")
+                return f"{op['id']}=Parser({op['src']}.rules, {o})"
             if k == "gen":
                 return f"{op['id']}=generate+exec({op['p']})"
             if k == "parse":
